@@ -655,6 +655,33 @@ def install(P, max_split=4):
             return p in s
         return z3.Contains(S(s), S(p))
 
+    WS = [" ", "\t", "\n", "\r", "\x0b", "\x0c", "\u0085", "\u00a0", "\u1680", "\u2028", "\u2029", "\u202f", "\u205f", "\u3000"] + \
+         [chr(c) for c in range(0x2000, 0x200b)]
+
+    def ws_re():
+        return z3.Union(*[z3.Re(c) for c in WS])
+
+    @P.summary("<impl str>::trim", "<impl str>::trim_start", "<impl str>::trim_end")
+    def _trim(ctx, c):
+        s = sval(c.args[0])
+        which = c.key.split("::")[-1]
+        if isinstance(s, str):
+            return {"trim": s.strip, "trim_start": s.lstrip, "trim_end": s.rstrip}[which]("".join(WS))
+        # t is s without leading/trailing Unicode White_Space: s = a ++ t ++ b, a,b in WS*, t does not start/end with WS
+        a, t, b = ctx.fresh("ws", z3.StringSort()), ctx.fresh("trimmed", z3.StringSort()), ctx.fresh("ws", z3.StringSort())
+        wsr = ws_re()
+        nonws = z3.Diff(z3.AllChar(), wsr)
+        core = z3.Union(z3.Re(""), nonws, z3.Concat(nonws, z3.Star(z3.AllChar()), nonws))
+        cons = [s == z3.Concat(a, t, b), z3.InRe(a, z3.Star(wsr)), z3.InRe(b, z3.Star(wsr))]
+        if which == "trim":
+            cons.append(z3.InRe(t, core))
+        elif which == "trim_start":
+            cons += [b == z3.StringVal(""), z3.InRe(t, z3.Union(z3.Re(""), z3.Concat(nonws, z3.Star(z3.AllChar()))))]
+        else:
+            cons += [a == z3.StringVal(""), z3.InRe(t, z3.Union(z3.Re(""), z3.Concat(z3.Star(z3.AllChar()), nonws)))]
+        ctx.assume(z3.And(*cons))
+        return t
+
     @P.summary("<impl str>::is_empty", "String::is_empty", "OsStr::is_empty", "OsString::is_empty")
     def _sempty(ctx, c):
         s = sval(c.args[0])
